@@ -140,6 +140,8 @@ class Ctx:
                     "class": jsonable(v.cls),
                     "solver_output": v.solver,
                     "no_failing_input_found": bool(v.no_input),
+                    # when the input was found by the bounded run of the real code rather than by the solver: the clause it fails
+                    "replay_obligation": getattr(v, "adopted_from", None),
                     "tier": self.tier,
                     "seed": self.seed,
                 },
@@ -160,7 +162,8 @@ class Ctx:
         for v in self.violations:
             if v.no_input and donors:
                 d = donors[0]
-                v.input = {"failing_input_found_by_bounded_clause": d.obligation, "input": d.input}
+                v.input = d.input
+                v.adopted_from = d.obligation
                 v.what += " | the bounded run of the real code fails %s on the recorded input: %s" % (d.obligation, d.what[:300])
                 v.no_input = False
         for v in self.violations:
